@@ -22,13 +22,13 @@ type Sort struct {
 }
 
 var (
-	Bool  = Sort{K: KBool}
-	FP64  = Sort{K: KFP}
-	Str   = Sort{K: KStr}
-	BV64  = Sort{K: KBV, W: 64}
-	BV8   = Sort{K: KBV, W: 8}
-	BV32  = Sort{K: KBV, W: 32}
-	BV16  = Sort{K: KBV, W: 16}
+	Bool = Sort{K: KBool}
+	FP64 = Sort{K: KFP}
+	Str  = Sort{K: KStr}
+	BV64 = Sort{K: KBV, W: 64}
+	BV8  = Sort{K: KBV, W: 8}
+	BV32 = Sort{K: KBV, W: 32}
+	BV16 = Sort{K: KBV, W: 16}
 )
 
 func BV(w int) Sort { return Sort{K: KBV, W: w} }
